@@ -61,9 +61,10 @@ theorem range_fold (bs : List (Option BoundSet)) : Semver.Gen.range_fold bs = fo
   unfold Semver.Gen.range_fold foldSets
   simp only [id_run, id_pure, Rust.flatten, RFlatten.flatten, Rust.next]
   cases h : bs.filterMap id with
-  | nil => rfl
+  | nil => first | rfl | simp [Rust.map_or_else, Rust.and_then, Rust.map_or, Rust.unwrap_or, Rust.map, RMap.map]
   | cons first rest =>
-    simp only [try_fold_eq, Rust.collect, RCollect.collect]
+    simp only [try_fold_eq, Rust.collect, RCollect.collect, Rust.map_or_else, Rust.and_then, Rust.map_or, Rust.unwrap_or,
+      Rust.map, RMap.map]
     cases rest.foldl (fun acc b => acc.bind (fun (x : BoundSet) => x.intersect b)) (some first) <;> rfl
 
 theorem bound_sets_flatten (sets : List (List BoundSet)) : Semver.Gen.bound_sets_flatten sets = sets.flatten := rfl
